@@ -254,6 +254,8 @@ class IdDomain(WorldsDomain):
         for a in node.args:
             if isinstance(a, ast.Call) and isinstance(a.func, ast.Attribute) and a.func.attr == 'keys':
                 ok = True
+            elif isinstance(a, ast.Attribute) and a.attr in ('nodes', 'edges'):
+                ok = True           # iterating a table (a dict) yields its keys
             elif self._is_max_keys(a):
                 ok = True
             else:
